@@ -214,7 +214,7 @@ def ast_is_super_call(node) -> bool:
     )
 
 
-def ast_is_supported_super_call(node, self_name, log_debug) -> bool:
+def ast_is_supported_super_call(node, self_name, log_debug, module=None) -> bool:
     supported = False
     args = node.func.value.args
     if not args and not node.func.value.keywords:
@@ -227,7 +227,8 @@ def ast_is_supported_super_call(node, self_name, log_debug) -> bool:
         and not node.func.value.keywords
     ):
         classes, idx = current_mro.get()
-        module = inspect.getmodule(classes[idx])
+        if module is None:
+            module = inspect.getmodule(classes[idx])
         for offset, cls in enumerate(classes[idx:]):
             if args[0].id == cls.__name__ and cls is getattr(module, cls.__name__, None):
                 current_mro.set((classes, idx + offset))
@@ -795,7 +796,9 @@ class ParametersVisitor(LoggerProperty, ast.NodeVisitor):
                 if kwarg.arg:
                     self.log_debug(f"kwargs given as keyword parameter not supported: {ast_str(node)}")
                 elif self.parent and ast_is_super_call(node):
-                    if ast_is_supported_super_call(node, self.self_name, self.log_debug):
+                    if ast_is_supported_super_call(
+                        node, self.self_name, self.log_debug, module=inspect.getmodule(self.component)
+                    ):
                         params = get_mro_parameters(
                             node.func.attr,  # type: ignore[attr-defined]
                             get_signature_parameters,
